@@ -182,7 +182,7 @@ fn run<E: Enf>(mk: impl Fn(&tokio::runtime::Runtime) -> E, threads: usize, write
         }));
     }
     // watchdog
-    let deadline = Instant::now() + Duration::from_secs(25);
+    let deadline = Instant::now() + Duration::from_secs(120);
     let n = hs.len();
     let mut joined = 0;
     let handle_idx = if handle { Some(n - 1) } else { None };
